@@ -44,7 +44,7 @@ META = {
         "constant install or constant-key reset executed on every parse around the render call; restore of a value (or of the "
         "absence of a key) saved from the same place; mutation inside a try whose finally restores a saved copy; data under an "
         "env attribute that Sphinx merges per docname (metadata & co.) keyed by env.docname; env.temp_data; tabled current-"
-        "document env API; settings attribute overwritten from the document's own config on every render; write to a fresh "
+        "document env API; settings attribute overwritten from the document's own config on every render or parse; write to a fresh "
         "copy / object under construction; function outside the reach of every parse entry. The docutils front end must remove "
         "roles._roles[''] after the render as its sibling docutils.parsers.rst.Parser.parse does. R2: save/restore pairs in "
         "finally blocks - the saved name is read from the restored place before the try (or under the same conditions as the "
@@ -59,7 +59,13 @@ META = {
         "field mutated in place is re-created for every MdParserConfig instance by an unconditional normalising validator "
         "(copy() is shallow). R9: env.myst_config is assigned on every normal path of a handler connected to builder-inited (the "
         "environment is pickled between builds). R10: a subscript slot that is extended in place somewhere (node['classes'], "
-        "node['names'] ...) is never assigned a mutable object owned by the config, a module global or a class."
+        "node['names'] ...) is never assigned a mutable object owned by the config, a module global or a class. R11: the system "
+        "messages returned by docutils' role/directive registry lookup (emitted only the first time a name is looked up in a "
+        "process) are used only under the lookup-failed test. R12: no warning goes through an API that de-duplicates against "
+        "earlier emissions of the process (Sphinx logging once=True, warnings.warn), one tabled build-level notice excepted. "
+        "R1 also judges method calls on a module-/class-level instance of a package class whose method keeps state (writes "
+        "self, mutates a member, calls into an external base class), and reads the library source of an external function "
+        "that is handed the Sphinx env to see that it only uses tabled env methods."
     ),
     "not_decided": (
         "equality of outputs under all histories/schedules as values; state kept inside third-party directives/roles, docutils "
@@ -70,14 +76,16 @@ META = {
     "trusted_base": [
         "CPython ast",
         "engine call graph incl. frozen special edges (their patterns are re-applied module-wide by this module)",
-        "tables in this module: ENV_API / ENV_PURE / ENV_ARG_API / ENV_MERGED / SETTINGS_API / REGISTRY_CALLS / FRESH_CALLS / STATEFUL_CTORS / IMMUTABLE_RESULTS / RESET_EXCEPTIONS",
-        "sibling sources docutils/parsers/rst/__init__.py and directives/misc.py (default-role oracle)",
+        "tables in this module: ENV_API / ENV_PURE / ENV_ARG_API / ENV_MERGED / SETTINGS_API / REGISTRY_CALLS / FRESH_CALLS / STATEFUL_CTORS / IMMUTABLE_RESULTS / RESET_EXCEPTIONS / ONCE_EXCEPTIONS / EFFECT_PREFIXES",
+        "sibling sources docutils/parsers/rst/__init__.py and directives/misc.py (default-role oracle); library functions that receive the env are read from site-packages",
     ],
     "assumptions": [
         "docutils creates one document/reporter per parse; under Sphinx the settings object is the publisher's and shared by all documents (judged as shared), settings.record_dependencies is replaced per document",
         "Sphinx clears env.temp_data per document and merges env.metadata & co. / domain data per docname from parallel read workers; ad-hoc env attributes are not merged",
         "the build environment (incl. env.myst_config) is pickled and re-loaded by the next build",
         "markdown-it creates a fresh env dict per MarkdownIt.render call; docutils Element constructors copy list-valued keyword arguments",
+        "docutils' roles.role()/directives.directive() cache successful lookups process-wide and emit their language-fallback messages only on the first lookup; failed lookups are not cached",
+        "Sphinx's OnceFilter (once=True) keys on the message text and lives as long as the application",
         "MdParserConfig.copy() is dataclasses.replace (shallow) and re-runs the field validators through __post_init__ (both re-verified on every run)",
     ],
 }
@@ -272,6 +280,7 @@ class Effects:
             self._special_patterns.setdefault(caller_fq.split(":")[0], []).extend(specs)
         self._extra: dict[str, list[FunctionInfo]] = {}
         self._sites: list[Site] | None = None
+        self._inst_why: dict[int, tuple] = {}
         self.parse_reach = self.reachable([corpus.func(e) for e in PARSE_ENTRIES])
         self.build_reach = self.reachable([corpus.func(e) for e in BUILD_ENTRIES])
 
@@ -779,12 +788,91 @@ class Effects:
                     elif isinstance(n.func, ast.Attribute) and n.func.attr not in _VALUE_METHODS:
                         if any(r.kind == "ENV" for r in self.classify(n.func.value, fi)) and not self.g.flat_targets(self.g.resolve_call(n, fi)):
                             out.append(Site(fi, n, n.func.value, unparse(n.func.value), f"envcall:{n.func.attr}"))
+                        elif isinstance(n.func.value, (ast.Name, ast.Attribute)) and not n.func.attr.startswith("__"):
+                            sic = self.stateful_instance_class(n.func.value, fi)
+                            if sic is not None:
+                                why = self.method_keeps_state(sic[0], n.func.attr)
+                                if why:
+                                    out.append(Site(fi, n, n.func.value, _ntext(n.func.value, fi), f"instcall:{n.func.attr}", None))
+                                    self._inst_why[id(n)] = (sic[0], sic[1], why)
                     if not (isinstance(n.func, ast.Attribute) and n.func.attr in MUTATORS):
                         for a in list(n.args) + [k.value for k in n.keywords]:
                             if isinstance(a, (ast.Name, ast.Attribute)) and any(r.kind == "ENV" and r.obj for r in self.classify(a, fi)):
                                 out.append(Site(fi, n, a, unparse(a), "envarg:" + self.callee_name(n, fi)))
         self._sites = out
         return out
+
+    def stateful_instance_class(self, e: ast.expr, fi: FunctionInfo, _depth: int = 0):
+        """``e`` is a module-level (or class-level) name bound to ``C(...)`` where C is a package class that keeps state:
+        returns (ClassInfo, where) or None."""
+        val = None
+        where = ""
+        if isinstance(e, ast.Name):
+            f, binds = self.lookup(e.id, fi)
+            if binds is not None and len(binds) == 1 and binds[0][0] == "assign" and not binds[0][2] and isinstance(binds[0][1], (ast.Name, ast.Attribute)) and not (isinstance(binds[0][1], ast.Name) and binds[0][1].id == e.id):
+                return self.stateful_instance_class(binds[0][1], f, _depth + 1) if _depth < 4 else None  # local alias of the shared instance
+            if binds is None and e.id in fi.module.const_nodes:
+                val, where = fi.module.const_nodes[e.id], f"module-level {fi.module.name}.{e.id}"
+            elif binds is not None and len(binds) == 1 and binds[0][0] == "import":
+                full = binds[0][1]
+                mn, _, nm = full.rpartition(".")
+                m2 = self.c.modules.get(mn)
+                if m2 is not None and nm in m2.const_nodes:
+                    val, where = m2.const_nodes[nm], f"module-level {full}"
+            elif binds is None and e.id in fi.module.imports:
+                full = fi.module.imports[e.id]
+                mn, _, nm = full.rpartition(".")
+                m2 = self.c.modules.get(mn)
+                if m2 is not None and nm in m2.const_nodes:
+                    val, where = m2.const_nodes[nm], f"module-level {full}"
+        elif isinstance(e, ast.Attribute) and isinstance(e.value, ast.Name) and e.value.id in ("self", "cls"):
+            so = self.self_owner(fi)
+            if so is not None:
+                for c in self.c.mro(so.cls):
+                    for st in c.node.body:
+                        if isinstance(st, (ast.Assign, ast.AnnAssign)) and st.value is not None:
+                            tg = st.targets[0] if isinstance(st, ast.Assign) else st.target
+                            if isinstance(tg, ast.Name) and tg.id == e.attr and self._self_store_index(so.cls).get(e.attr) is None:
+                                val, where = st.value, f"class-level {c.fq}.{e.attr}"
+        if not isinstance(val, ast.Call):
+            return None
+        d = dotted(val.func)
+        if not d:
+            return None
+        mod = val._mod if hasattr(val, "_mod") else fi.module
+        ci = self.c.find_class(mod.resolve(d))
+        if ci is None or _class_is_immutable(self.c, ci):
+            return None
+        return ci, where
+
+    def method_keeps_state(self, ci, name: str, depth: int = 0, seen: frozenset = frozenset()) -> str | None:
+        """Why calling ``name`` on an instance of ``ci`` changes the instance (None: it does not, as far as can be seen)."""
+        m = self.c.lookup_method(ci, name)
+        if m is None:
+            ext = self.c.external_bases(ci)
+            return f"`{name}` is inherited from {ext[0]}" if ext else None
+        if m.fq in seen or depth > 2:
+            return None
+        for n in walk_local(m.node, into_lambdas=False):
+            tg = n.targets if isinstance(n, ast.Assign) else [n.target] if isinstance(n, (ast.AugAssign, ast.AnnAssign)) else []
+            for t0 in tg:
+                for t, _ in _flatten(t0):
+                    r = t
+                    while isinstance(r, (ast.Attribute, ast.Subscript)):
+                        r = r.value
+                    if isinstance(t, (ast.Attribute, ast.Subscript)) and isinstance(r, ast.Name) and r.id == "self":
+                        return f"{m.qualname} writes `{short(t, 30)}`"
+            if isinstance(n, ast.Call) and isinstance(n.func, ast.Attribute):
+                d = dotted(n.func) or ""
+                if d.startswith("super().") and self.c.external_bases(ci):
+                    return f"{m.qualname} calls {d}() of {self.c.external_bases(ci)[0]}"
+                if d.startswith("self.") and d.count(".") >= 2 and n.func.attr in MUTATORS:
+                    return f"{m.qualname} calls `{d}()`"
+                if d.startswith("self.") and d.count(".") == 1:
+                    r2 = self.method_keeps_state(ci, n.func.attr, depth + 1, seen | {m.fq})
+                    if r2:
+                        return r2
+        return None
 
     def callee_name(self, call: ast.Call, fi: FunctionInfo) -> str:
         d = dotted(call.func) or ""
@@ -1079,6 +1167,61 @@ def _structural_env_receiver(ef: Effects, e: ast.expr, fi: FunctionInfo) -> bool
     return False
 
 
+def _sibling_env_use(ef: Effects, callee: str, call: ast.Call, env_arg: ast.expr):
+    """Read the library function that receives the env: (True, why) when it only reads attributes of it and calls
+    tabled current-document / read-only env methods; (False, why) when it does something else; None when the source
+    cannot be found."""
+    modname, _, fname = callee.rpartition(".")
+    if not modname or not fname:
+        return None
+    try:
+        m = ef.c.sibling_module(modname)
+    except Exception:
+        m = None
+    if m is None or fname not in m.functions:
+        return None
+    fn = m.functions[fname]
+    if fn.is_lambda:
+        return None
+    # which parameter receives the env
+    pname = None
+    for i, a in enumerate(call.args):
+        if a is env_arg and i < len(fn.params):
+            pname = fn.params[i]
+    for kw in call.keywords:
+        if kw.value is env_arg and kw.arg in fn.params:
+            pname = kw.arg
+    if pname is None:
+        return False, "cannot map the argument to a parameter"
+    used = []
+    for n in walk_local(fn.node):
+        if isinstance(n, ast.Name) and n.id == pname:
+            p_ = parent(n)
+            if isinstance(p_, ast.Attribute) and p_.value is n:
+                pp = parent(p_)
+                if isinstance(pp, ast.Call) and pp.func is p_:
+                    if p_.attr in ENV_PURE or p_.attr in ENV_API:
+                        used.append(f"{pname}.{p_.attr}()")
+                        continue
+                    return False, f"calls {pname}.{p_.attr}(...), which is not a tabled env method"
+                if isinstance(p_.ctx, ast.Load):
+                    if isinstance(pp, (ast.Attribute, ast.Subscript)) and isinstance(getattr(pp, "ctx", None), (ast.Store, ast.Del)):
+                        return False, f"writes below {pname}.{p_.attr}"
+                    if isinstance(pp, ast.Attribute) and isinstance(parent(pp), ast.Call) and parent(pp).func is pp and pp.attr in MUTATORS:
+                        return False, f"mutates {pname}.{p_.attr}"
+                    used.append(f"{pname}.{p_.attr}")
+                    continue
+                return False, f"assigns {pname}.{p_.attr}"
+            if isinstance(p_, (ast.Compare, ast.BoolOp, ast.UnaryOp, ast.If, ast.IfExp)):
+                continue
+            if isinstance(p_, ast.arg):
+                continue
+            return False, f"passes `{pname}` on (`{short(p_, 40)}`)"
+    rep_ = ", ".join(sorted(set(used))[:4]) or "does not use it"
+    apis = [u for u in set(used) if u.endswith("()") and u[len(pname) + 1 : -2] in ENV_API]
+    return True, f"{callee} uses the env only through {rep_}" + (f" ({'; '.join(ENV_API[a[len(pname) + 1 : -2]] for a in apis)})" if apis else "")
+
+
 def _judge_shared(ef: Effects, s: Site, roots: frozenset) -> tuple[str, str]:
     """('ok'|'assumed'|'violation'|'error', reason) for a write whose object has a shared root."""
     fi = s.fi
@@ -1092,6 +1235,12 @@ def _judge_shared(ef: Effects, s: Site, roots: frozenset) -> tuple[str, str]:
             return "ok", "once per build: only reachable from setup()/builder-inited, never from a parse entry"
         return "assumed", "not reachable from any parse entry, transform, directive or role in the call graph (CLI / helper)"
     # --- reachable from a parse ---------------------------------------------------------
+    if s.how.startswith("instcall:"):
+        ci_, where_, why_ = ef._inst_why[id(s.node)]
+        return "violation", (
+            f"`{short(s.node, 60)}` uses the {where_}, one `{ci_.name}` instance created at import time and shared by every parse in the process; "
+            f"it keeps state ({why_}), so what one document leaves in it is seen by the next"
+        )
     if s.how.startswith("envcall:"):
         m = s.how.split(":", 1)[1]
         if m in ENV_PURE:
@@ -1117,7 +1266,13 @@ def _judge_shared(ef: Effects, s: Site, roots: frozenset) -> tuple[str, str]:
         call = s.node
         if ef.g.flat_targets(ef.g.resolve_call(call, fi)):
             return "skip", ""  # a package function: its own writes are judged where they happen
-        return "error", f"{s.site}: the Sphinx env/app object is handed to `{callee}`, which is not in ENV_ARG_API"
+        sib = _sibling_env_use(ef, callee, call, s.container)
+        if sib is not None:
+            ok_, why_ = sib
+            if ok_:
+                return "ok", f"library function read from its source: {why_}"
+            return "error", f"{s.site}: the Sphinx env/app object is handed to `{callee}`; its source was read but not understood: {why_}"
+        return "error", f"{s.site}: the Sphinx env/app object is handed to `{callee}`, which is not in ENV_ARG_API and whose source was not found"
     if any(r.kind == "ENV" for r in roots):
         envroots = [r for r in roots if r.kind == "ENV"]
         if all(r.dockey for r in envroots) or (s.how.startswith("mutator:") and isinstance(s.node, ast.Call) and s.node.args and ef.is_docname(s.node.args[0], fi) and isinstance(s.container, ast.Attribute) and s.container.attr in ENV_MERGED):
@@ -1136,6 +1291,8 @@ def _judge_shared(ef: Effects, s: Site, roots: frozenset) -> tuple[str, str]:
                 return "violation", f"{what}: the stored value is computed from what the settings object already holds; under Sphinx that is what the previously read document left there"
             if _on_every_render(ef, fi, s.node) is True:
                 return "ok", "settings attribute overwritten from the document's own config on every render, before the transforms read it"
+            if _on_every_parse(ef, fi, s.node, s.written) is True:
+                return "ok", "settings attribute overwritten on every parse that renders"
             return "violation", f"{what}: the store does not happen on every render, so later documents see the value an earlier document left on the shared settings object"
         return "violation", f"{what}: in-place change of an object hanging off the settings object that all documents of a Sphinx build share"
     # save/restore shapes
@@ -1217,6 +1374,8 @@ def r1_effect_classification(corpus: Corpus, rep: Report, tier: str):
             continue
         seen.add(k)
         shared = {r for r in roots if r.kind in SHARED}
+        if s.how.startswith("instcall:") and not shared:
+            shared = {Root("GLOBAL", "module/class-level instance")}
         if not shared:
             # configuration objects that are provably private copies are recorded as discharged obligations
             if s.how in ("setattr", "store") and (ef._is_config_type(s.container, s.fi) == "CONFIG" or any("config object under construction" in r.why for r in roots)) and all(r.kind == "FRESH" for r in roots):
@@ -2224,6 +2383,133 @@ def r10_no_aliasing_into_mutated_slots(corpus: Corpus, rep: Report, tier: str):
             rep.ok("C15.R10", k, s.site, "the slot receives an object built for this node")
     rep.expect_min("C15.R10", 3, "assignments to node['names'] / node['classes'] slots")
 
+
+# ---------------------------------------------------------------------------
+# R11 by-products of process-wide memoising lookups do not reach the document
+
+
+def _registry_call(ef: Effects, v: ast.expr, fi: FunctionInfo, depth: int = 0) -> str | None:
+    """Name of the docutils registry lookup that ``v`` evaluates (directly, or through a package helper that returns it)."""
+    if not isinstance(v, ast.Call) or depth > 2:
+        return None
+    name = ef.callee_name(v, fi)
+    if name in REGISTRY_CALLS:
+        return name
+    for t in ef.g.flat_targets(ef.g.resolve_call(v, fi)):
+        if t.is_lambda or t.name in ("__init__", "__post_init__"):
+            continue
+        rets = [n for n in walk_local(t.node, into_lambdas=False) if isinstance(n, ast.Return) and n.value is not None]
+        for r in rets:
+            rv = r.value
+            if isinstance(rv, ast.Name):
+                _, b = ef.lookup(rv.id, t)
+                vals = [x for k_, x, p_ in b or [] if k_ == "assign" and x is not None and not p_]
+                rv = vals[0] if len(vals) == 1 else rv
+            got = _registry_call(ef, rv, t, depth + 1)
+            if got:
+                return got
+    return None
+
+
+@rule("C15.R11")
+def r11_lookup_messages(corpus: Corpus, rep: Report, tier: str):
+    rep.rule("C15.R11", "the system messages that docutils' role/directive lookup returns (emitted only the first time a name is looked up in a process) are used only on the path where the lookup failed")
+    ef = _effects(corpus)
+    n_inst = 0
+    for fi in corpus.all_functions():
+        if fi.is_lambda or fi.fq not in ef.parse_reach:
+            continue
+        b = ef.bindings(fi)
+        # names unpacked from a registry lookup: obj, messages = <lookup>  /  out = <lookup>; obj, messages = out
+        for st in [n for n in walk_local(fi.node, into_lambdas=False) if isinstance(n, (ast.Assign, ast.AnnAssign))]:
+            tg = st.targets[0] if isinstance(st, ast.Assign) and len(st.targets) == 1 else getattr(st, "target", None)
+            if not (isinstance(tg, (ast.Tuple, ast.List)) and len(tg.elts) == 2 and all(isinstance(e, ast.Name) for e in tg.elts)) or st.value is None:
+                continue
+            v = st.value
+            if isinstance(v, ast.Name):
+                vals = [x for k_, x, p_ in b.get(v.id, []) if k_ == "assign" and x is not None and not p_]
+                v = vals[0] if len(vals) == 1 else v
+            reg = _registry_call(ef, v, fi)
+            if not reg:
+                continue
+            obj, msgs = tg.elts[0].id, tg.elts[1].id
+            n_inst += 1
+            cfg = get_cfg(fi)
+            k = f"{fi.fq}|messages of {reg.rsplit('.', 1)[-1]}() lookup ({msgs})"
+            bad = None
+            uses = [n for n in walk_local(fi.node, into_lambdas=False) if isinstance(n, ast.Name) and n.id == msgs and isinstance(n.ctx, ast.Load)]
+            for u in uses:
+                gs = cfg.guards(cfg.stmt_of(u))
+                failed = any(
+                    (isinstance(t, ast.Name) and t.id == obj and not pol)
+                    or (isinstance(t, ast.Compare) and isinstance(t.left, ast.Name) and t.left.id == obj and len(t.ops) == 1 and isinstance(t.ops[0], ast.Is) and isinstance(t.comparators[0], ast.Constant) and t.comparators[0].value is None and pol)
+                    or (isinstance(t, ast.Compare) and isinstance(t.left, ast.Name) and t.left.id == obj and len(t.ops) == 1 and isinstance(t.ops[0], ast.IsNot) and isinstance(t.comparators[0], ast.Constant) and t.comparators[0].value is None and not pol)
+                    for t, pol in gs
+                )
+                if not failed:
+                    bad = u
+                    break
+            if bad is not None:
+                rep.violation(
+                    "C15.R11",
+                    k,
+                    fi.module.site(bad),
+                    f"`{short(cfg.stmt_of(bad), 70)}` uses the messages of the {reg} lookup on a path where the lookup succeeded: docutils emits those (language-fallback INFO) messages only the first time "
+                    f"a name is looked up in a process and then serves the name from its global cache, so the first document that uses `{obj}` gets extra nodes that later documents do not",
+                )
+            else:
+                rep.ok("C15.R11", k, fi.module.site(st), f"{len(uses)} use(s), all under the lookup-failed test of `{obj}`")
+    if n_inst == 0:
+        rep.ok("C15.R11", "no registry lookup is unpacked in parse reach", "myst_parser", "nothing to judge")
+
+
+# ---------------------------------------------------------------------------
+# R12 no emission API that remembers what it emitted before
+
+ONCE_EXCEPTIONS = {
+    "myst_parser.sphinx_ext.myst_refs:MystReferenceResolver.resolve_myst_ref_any": "notice about a third-party domain without resolve_any_xref: it is passed target None / no location and does not belong to a document (one per build is its meaning)",
+}
+
+
+@rule("C15.R12")
+def r12_no_once_emission(corpus: Corpus, rep: Report, tier: str):
+    rep.rule("C15.R12", "warnings are not emitted through APIs that de-duplicate against earlier emissions of the process (Sphinx logging once=True, warnings.warn): whether a document gets its warning must not depend on other documents")
+    ef = _effects(corpus)
+    n = 0
+    for fi in corpus.all_functions():
+        if fi.fq not in ef.parse_reach:
+            continue
+        for c in walk_local(fi.node, into_lambdas=False):
+            if not isinstance(c, ast.Call):
+                continue
+            name = ef.callee_name(c, fi)
+            kw = [k for k in c.keywords if k.arg == "once"]
+            is_warn = name in ("warnings.warn", "warnings.warn_explicit")
+            if not kw and not is_warn:
+                continue
+            n += 1
+            k = stmt_key(fi, c, 90)
+            site = fi.module.site(c)
+            if is_warn:
+                rep.violation("C15.R12", k, site, f"`{short(c, 50)}`: Python's warnings machinery shows a warning once per code location and process (the __warningregistry__), so only the first document that triggers it is told")
+                continue
+            v = kw[0].value
+            if isinstance(v, ast.Constant) and not v.value:
+                rep.ok("C15.R12", k, site, "once is false")
+                continue
+            owner = fi
+            while owner is not None and not (isinstance(v, ast.Name) and v.id in owner.params):
+                owner = owner.parent_func
+            if owner is not None:
+                rep.ok("C15.R12", k, site, f"forwards its own `{v.id}` parameter: judged at the callers")
+                continue
+            if fi.fq in ONCE_EXCEPTIONS and c.args and isinstance(c.args[0], ast.Constant) and c.args[0].value is None:
+                rep.assumed("C15.R12", k, site, ONCE_EXCEPTIONS[fi.fq])
+                continue
+            rep.violation("C15.R12", k, site, f"`{short(c, 60)}` asks Sphinx's logger to emit the message only once per application (OnceFilter keys on the message text, not on the location): a document whose warning text was already produced by an earlier document of the build gets no warning, and serial and parallel reads differ")
+    if n == 0:
+        rep.ok("C15.R12", "no once-only emission in parse reach", "myst_parser", "nothing to judge")
+
 # ---------------------------------------------------------------------------
 # R6 document-scoped state (evidence only)
 
@@ -2300,6 +2586,12 @@ def r2_pairing(corpus: Corpus, rep: Report, tier: str):
                 name, defs = info
                 bad = None
                 if not defs:
+                    owner_ = fi
+                    while owner_ is not None and name not in owner_.params:
+                        owner_ = owner_.parent_func
+                    if owner_ is not None:
+                        rep.listed("C15.R2", k, site, f"finally assigns the parameter `{name}` (what the caller handed in) - not judged")
+                        continue
                     bad = f"`{name}` is never assigned in {fi.qualname}"
                 unjudged = None
                 for d, kind in defs:
@@ -2368,7 +2660,7 @@ def r2_pairing(corpus: Corpus, rep: Report, tier: str):
                                 rep.listed("C15.R2", k, fi.module.site(n), f"finally deletes `{txt}`; no store of it is visible in the try body - not judged")
     rep.expect_min("C15.R2", 6, "restore/undo statements in finally blocks (figure-md 1, include mock 7, substitution 1)")
 
-RULES = [r1_effect_classification, r2_pairing, r3_pure_caches, r4_freshness, r5_reset_completeness, r6_document_scoped, r7_nondeterminism, r8_field_ownership, r9_env_config_refreshed, r10_no_aliasing_into_mutated_slots]
+RULES = [r1_effect_classification, r2_pairing, r3_pure_caches, r4_freshness, r5_reset_completeness, r6_document_scoped, r7_nondeterminism, r8_field_ownership, r9_env_config_refreshed, r10_no_aliasing_into_mutated_slots, r11_lookup_messages, r12_no_once_emission]
 
 
 
@@ -2657,4 +2949,42 @@ def mutants(corpus: Corpus):
     rl = find_node(f, lambda n: isinstance(n, ast.Return) and n.value is not None)
     if rl is not None:
         add("c15-cached-function-returns-its-working-list", "C15.R3", f, _multi_splice(inv.src, [(f.node, "@functools.lru_cache(maxsize=64)\n" + _seg(f, f.node).replace(_seg(f, rl), "return str_items", 1))]), "filter_string")
+    # --- round-5 classes ---------------------------------------------------------------------------------
+    # R1: one stateful package object created at import time and used by every parse
+    h2n = corpus.mod("mdit_to_docutils.html_to_nodes")
+    f = h2n.func("html_to_nodes")
+    c = find_node(f, lambda n: isinstance(n, ast.Call) and dotted(n.func) == "tokenize_html")
+    if c is not None:
+        add("c15-module-level-html-tokenizer-shared", "C15.R1", f, splice(h2n.src, c, "_HTML_TOKENIZER.feed(" + ", ".join(_seg(f, a) for a in c.args) + ")") + "\n\nfrom myst_parser.parsers.parse_html import HtmlToAst\n\n_HTML_TOKENIZER = HtmlToAst()\n", "_HTML_TOKENIZER")
+    else:
+        out.append(("c15-module-level-html-tokenizer-shared", "tokenize_html(...) call in html_to_nodes not found"))
+    ph = corpus.mod("parsers.parse_html")
+    f = ph.func("tokenize_html")
+    st = find_stmt(f, lambda n: isinstance(n, ast.Assign) and isinstance(n.value, ast.Call) and dotted(n.value.func) == "HtmlToAst")
+    if st is not None and isinstance(st.targets[0], ast.Name):
+        add("c15-module-level-parser-in-tokenize-html", "C15.R1", f, splice(ph.src, st, st.targets[0].id + " = _SHARED_PARSER") + "\n\n_SHARED_PARSER = HtmlToAst()\n", "_SHARED_PARSER")
+    # R11: messages of a (memoised) registry lookup used although the lookup succeeded
+    f = base.func("DocutilsRenderer.render_myst_role")
+    st = find_stmt(f, lambda n: isinstance(n, ast.AugAssign) and unparse(n.target) == "self.current_node" and "messages2" in unparse(n.value))
+    if st is not None:
+        add("c15-role-lookup-messages-kept-on-success", "C15.R11", f, splice(base.src, st.value, "messages + " + _seg(f, st.value)), "role() lookup")
+    else:
+        out.append(("c15-role-lookup-messages-kept-on-success", "self.current_node += _nodes + messages2 not found"))
+    f = base.func("DocutilsRenderer.run_directive")
+    rets = sorted([n for n in walk_local(f.node, into_lambdas=False) if isinstance(n, ast.Return) and isinstance(n.value, ast.Name)], key=lambda n: n.lineno)
+    if rets:
+        add("c15-directive-lookup-messages-kept-on-success", "C15.R11", f, splice(base.src, rets[-1].value, "messages + " + rets[-1].value.id), "directive() lookup")
+    # R12: once-only emission
+    w = corpus.mod("warnings_")
+    f = w.func("create_warning")
+    c = find_node(f, lambda n: isinstance(n, ast.Call) and isinstance(n.func, ast.Attribute) and n.func.attr == "warning" and any(k.arg == "type" for k in n.keywords))
+    if c is not None:
+        add("c15-sphinx-warning-logged-once", "C15.R12", f, splice(w.src, c.keywords[-1].value, _seg(f, c.keywords[-1].value) + ", once=True"), "create_warning")
+    else:
+        out.append(("c15-sphinx-warning-logged-once", "Sphinx logger.warning call in create_warning not found"))
+    rr = corpus.mod("sphinx_ext.myst_refs")
+    f = rr.func("MystReferenceResolver.resolve_myst_ref_any")
+    c = find_node(f, lambda n: isinstance(n, ast.Call) and unparse(n.func) == "self.log_warning" and any("XREF_AMBIGUOUS" in unparse(a) for a in n.args))
+    if c is not None:
+        add("c15-ambiguous-reference-warned-once", "C15.R12", f, splice(rr.src, c.args[-1], _seg(f, c.args[-1]) + ", once=True"), "resolve_myst_ref_any")
     return out
